@@ -218,6 +218,21 @@ def weird_epk(rng: Rng):
     return j
 
 
+def deep_header(base: dict, rng: Rng, depth: int, epk: bool = False) -> bytes:
+    """header JSON text in which one value - a member of the header, of an embedded jwk, of the epk - is nested `depth` levels"""
+    deep = b"[" * depth + b"]" * depth
+    text = rjws.compact_json(base)[:-1]
+    where = rng.pick(["x5c", "zzz", "jwk", "crit"] + (["epk", "epk", "epk"] if epk else []))
+    if where == "epk":
+        pub = rk.to_jwk(K.make_ec(rng.sub("deep-epk"), "P-256").public())
+        text += b',"epk":' + rjws.compact_json(pub)[:-1] + b',"' + rng.pick([b"ext", b"key_ops", b"x5c", b"kid"]) + b'":' + deep + b"}"
+    elif where == "jwk":
+        text += b',"jwk":{"kty":"oct","k":"AA","' + rng.pick([b"ext", b"key_ops", b"x5c"]) + b'":' + deep + b"}"
+    else:
+        text += b',"' + where.encode() + b'":' + deep
+    return text + b"}"
+
+
 _X5C_VALUES = None
 
 
@@ -281,8 +296,10 @@ def gen_jws_input(w: World, rng: Rng):
     if src == "header-type":
         v = rng.pick(VALUES + ["\xff", "{", "[", "nul", "<deep>", "<deep>"])
         if v == "<deep>":
-            depth = rng.pick([1500, 5000, 100000])
-            raw = b'{"alg":"%s","kid":"%s","x5c":' % (alg.encode(), kname.encode()) + b"[" * depth + b"]" * depth + b"}"
+            # deeper than a JSON parser goes, and - more interesting - as deep as it *does* go: what parses may still be too
+            # deep for whatever walks the value afterwards (a copy, a validator, a re-serialisation)
+            depth = rng.pick([400, 600, 900, 1300, 1500, 5000, 100000])
+            raw = deep_header({"alg": alg, "kid": kname}, rng, depth)
             if rng.chance(0.3):
                 raw = b"[" * depth + b"]" * depth
         else:
@@ -379,8 +396,11 @@ def gen_jwe_input(w: World, rng: Rng):
             tok = relabel(tok, m, v, where=pos)
         note += " (unauthenticated)"
     if src == "header-type":
-        v = rng.pick(VALUES + ["\xff", "{", "nul"])
-        raw = v.encode("latin-1") if v in ("\xff", "{", "nul") else rjws.compact_json(v)
+        v = rng.pick(VALUES + ["\xff", "{", "nul", "<deep>", "<deep>"])
+        if v == "<deep>":
+            raw = deep_header({"alg": alg, "enc": enc}, rng, rng.pick([400, 600, 900, 1300, 1500, 5000]), epk=alg.startswith("ECDH"))
+        else:
+            raw = v.encode("latin-1") if v in ("\xff", "{", "nul") else rjws.compact_json(v)
         tok = set_protected(tok, b64.enc(raw))
         note = "protected header := %r" % (v,)
     elif src == "wire":
